@@ -299,8 +299,38 @@ def post_twin(ctx, call):
         if ok is None:
             ctx.skip("twin", f"not comparable: {why}")
             continue
+        if ok is False and opname == "from_foci":
+            feat["other_confocal_solution"] = _both_confocal(call.result, tres, args)
         ctx.judge("twin", ok, ops, what=f"{call.name}: result changes when argument {k} ({type(obj).__name__}) is multiplied by {np.ravel(lam)[:4]}: {why}", op=call.name,
                   feat=feat, nontrivial=True, expected=call.result if not isinstance(call.result, (list, tuple)) else None, observed=tres if not isinstance(tres, (list, tuple)) else None)
+
+
+def _both_confocal(c0, c1, args):
+    """Are both results valid answers of from_foci -- real conics through the boundary point whose foci are the two given points
+    (the ellipse and the hyperbola of the confocal family)?"""
+    try:
+        f1, f2, bound = [np.asarray(a.normalized_array, dtype=complex) for a in args[-3:]]
+        for c in (c0, c1):
+            A = np.asarray(c.array, dtype=complex)
+            A = A / A.flat[int(np.abs(A).argmax())]
+            if np.abs(A.imag).max() > 1e-8 or abs(bound @ A @ bound) > 1e-8 * max(1.0, float(np.abs(bound).max()) ** 2):
+                return False
+            fo = [np.asarray(x.normalized_array, dtype=complex) for x in c.foci]
+            if len(fo) != 2 or not all(min(np.abs(x - f1).max(), np.abs(x - f2).max()) < 1e-6 * max(1.0, float(np.abs(x).max())) for x in fo):
+                return False
+        return True
+    except Exception:  # noqa: BLE001
+        return False
+
+
+def f33_from_foci_other_solution(rec, feat):
+    """Two conics of the confocal family pass through a boundary point in general position (an ellipse and a hyperbola). from_foci
+    computes both and keeps the first one whose matrix passes an *exact* np.isreal test; both are real up to rounding noise of 1e-16, so
+    the noise -- and with it the representative of an argument -- decides which of the two valid answers is returned."""
+    return rec["monitor"] == "twin" and feat.get("op") == "Conic.from_foci" and feat.get("other_confocal_solution") is True
+
+
+CLASSIFIERS = {"f33_from_foci_other_solution": f33_from_foci_other_solution}
 
 
 # ---------------------------------------------------------------------------------
